@@ -123,7 +123,15 @@ def stoichiometries_to_sympy(
                 origin=origin,
                 model_args=list_of_symbols(rxn_stoich.args),
             )
-            expr = expr + sympy_fn * sympy.Symbol(rxn_name)  # type: ignore
+            term = sympy_fn * sympy.Symbol(rxn_name)  # type: ignore
         else:
-            expr = expr + rxn_stoich * sympy.Symbol(rxn_name)  # type: ignore
-    return expr.subs(1.0, 1)  # type: ignore
+            # as a float: `2*v` is an integer times a float, which Rust rejects
+            term = sympy.Float(rxn_stoich) * sympy.Symbol(rxn_name)
+        # write 1.0*v as v and -1.0*v as -v; other occurrences of 1.0 stay floats
+        coefficient, rest = term.as_coeff_Mul()
+        if float(coefficient) == 1.0:
+            term = rest
+        elif float(coefficient) == -1.0:
+            term = -rest
+        expr = expr + term  # type: ignore
+    return expr  # type: ignore
